@@ -110,6 +110,9 @@ class C06(Property):
         ctr[0] += 1
         return ["s", ctr[0]]
       c = W.pick("const", [1, -1, 2, 3, -2, 5])
+      if W.chance("finite-constant-stream", 1, 12):
+        # a constant given as a FINITE constant stream, itertools.repeat
+        return ["r", c, W.choose("times", 11)]
       return ["c", c]
 
     def single():
@@ -128,8 +131,16 @@ class C06(Property):
                                  (2, "scale"), (1, "add3"), (1, "mulscale"),
                                  (1, "sub"), (1, "neg"), (1, "div"),
                                  (2, "pow"), (2, "addc"), (2, "dupscale"),
-                                 (1, "copyadd"), (1, "copymul")])
-    if shape == "single":
+                                 (1, "copyadd"), (1, "copymul"),
+                                 (2, "zeronum")])
+    if shape == "zeronum":
+      # free response: empty numerator, feedback only (needs a delay term)
+      tree = single()
+      tree["route"] = "lists"
+      tree["num"] = []
+      if len(tree["den"]) < 2:
+        tree["den"].append([1 + W.choose("dpow", 2), coeff(p_stream=(1, 2))])
+    elif shape == "single":
       tree = single()
     elif shape in ("add", "mul"):
       tree = {"op": shape, "a": single(), "b": single()}
@@ -190,7 +201,8 @@ class C06(Property):
     if xlen is None and all(v is None for v in lens.values()):
       xlen = W.choose("xlen", 11)
     return {"tree": tree, "lens": lens, "xlen": xlen,
-            "cstream": W.choose("cstream", 4)}
+            "cstream": W.choose("cstream", 4),
+            "memory": shape == "zeronum" or W.chance("memory", 1, 4)}
 
   def shrink_candidates(self, wl):
     t = wl["tree"]
@@ -265,6 +277,10 @@ class C06(Property):
       {"tree": {"op": "add", "a": single([[0, S(1)]], [[0, C(2)], [1, C(1)]]),
                 "b": single([[1, S(2)]], [[0, C(2)], [1, C(1)]])},
        "lens": {"1": 6, "2": 6}, "xlen": 6, "cstream": 0},
+      {"tree": single([], [[0, C(2)], [1, S(1)], [2, C(-1)]], "lists"),
+       "lens": {"1": 6}, "xlen": None, "cstream": 0, "memory": True},
+      {"tree": single([[0, C(1)]], [[0, S(1)], [1, C(3)]], "lists"),
+       "lens": {"1": None}, "xlen": 5, "cstream": 1, "memory": True},
       {"tree": {"op": "addc", "how": "f+c", "c": C(2),
                 "a": single([[0, C(1)]], [[0, C(1)], [1, S(1)]], "quot")},
        "lens": {"1": None}, "xlen": 9, "cstream": 0},
@@ -300,6 +316,9 @@ class C06(Property):
     def cval(c):
       if c[0] == "s":
         return Stream(sources[c[1]])
+      if c[0] == "r":
+        import itertools
+        return Stream(itertools.repeat(Fraction(c[1]), c[2]))
       if const_as_stream:
         flip[0] += 1
         if flip[0] % 2 == 0:
@@ -310,7 +329,7 @@ class C06(Property):
       op = t["op"]
       if op == "single":
         if t["route"] == "lists":
-          size = lambda lst: max(k for k, _ in lst) + 1
+          size = lambda lst: max([k for k, _ in lst] + [0]) + 1
           num = [0] * size(t["num"])
           for k, c in t["num"]:
             num[k] = cval(c)
@@ -371,6 +390,8 @@ class C06(Property):
     """ (num, den) of a tree at sample n straight from the specification. """
     def cv(c):
       return src_value(c[1], n) if c[0] == "s" else Fraction(c[1])
+    # (a finite constant stream ["r", value, times] has its constant value
+    # for as long as it lasts; its length enters the output length)
     op = t["op"]
     if op == "single":
       num = dict((k, cv(c)) for k, c in t["num"])
@@ -448,6 +469,29 @@ class C06(Property):
     rec(t)
     return out
 
+  @staticmethod
+  def tree_repeat_lens(t):
+    out = []
+
+    def visit(c):
+      if c[0] == "r":
+        out.append(c[2])
+
+    def rec(t):
+      if t["op"] == "single":
+        for part in ("num", "den"):
+          for k, c in t[part]:
+            if not (t["route"] == "quot" and part == "den" and k == 0):
+              visit(c)
+      else:
+        if "c" in t and isinstance(t["c"], list):
+          visit(t["c"])
+        for sub in ("a", "b"):
+          if sub in t:
+            rec(t[sub])
+    rec(t)
+    return out
+
   def make_sources(self, wl, sids, endless_horizon=None):
     srcs = {}
     for sid in sids:
@@ -485,7 +529,10 @@ class C06(Property):
     sids = self.tree_sids(tree)
     info["nstreams"] = len(sids)
     lengths = [wl["lens"].get(str(s)) for s in sids] + [wl["xlen"]]
-    finite = [v for v in lengths if v is not None]
+    rep_lens = self.tree_repeat_lens(tree)
+    if rep_lens:
+      res.counters["probe.finite-constant-stream"] += 1
+    finite = [v for v in lengths if v is not None] + rep_lens
     out_len = min(finite) if finite else None
     horizon = (out_len + 2) if out_len is not None else HORIZON
     res.counters["shape." + tree["op"]] += 1
@@ -554,6 +601,12 @@ class C06(Property):
     # ---- expected output: the difference equation on A's own sequences
     xs = [x_value(i) for i in range(ncheck)]
     ys = []
+    order = max(denA)
+    memory = None
+    if wl.get("memory") and order >= 1:
+      # exactly as long as the filter needs: y[-1], y[-2], ...
+      memory = [Fraction(3 + 2 * j, 2) for j in range(order)]
+      res.counters["probe.non-zero-memory"] += 1
     for n in range(ncheck):
       acc = Fraction(0)
       for k, e in numA.items():
@@ -562,6 +615,8 @@ class C06(Property):
       for k, e in denA.items():
         if k >= 1 and n - k >= 0:
           acc -= at(e, n) * ys[n - k]
+        elif k >= 1 and memory is not None:
+          acc -= at(e, n) * memory[k - n - 1]
       a0 = at(denA[0], n)
       ys.append(acc / a0)
 
@@ -575,7 +630,10 @@ class C06(Property):
         res.counters["fault.endless"] += 1
     try:
       fB = self.build(tree, srcB)
-      out = fB(xsrc, zero=Fraction(0))
+      if memory is not None:
+        out = fB(xsrc, memory=list(memory), zero=Fraction(0))
+      else:
+        out = fB(xsrc, zero=Fraction(0))
     except Exception as exc:
       raise _Mismatch("call-raised", "calling the filter raised %r" % (exc,))
     for r in readers:
@@ -638,11 +696,25 @@ class C06(Property):
         res.counters["probe.input-ends-first"] += 1
       if any(nm != "input" for nm in first):
         res.counters["probe.coefficient-ends-first"] += 1
+      input_first = wl["xlen"] == out_len and \
+        all(v is None or v > out_len for v in
+            [wl["lens"].get(str(s)) for s in sids] + rep_lens)
+      if input_first:
+        res.counters["probe.input-alone-ends-first"] += 1
       for r in readers:
         if r.delivered > out_len + 1 or r.delivered < out_len:
           raise _Mismatch("accounting:at-end", "at the end reader %s "
                           "delivered %d items, output length %d"
                           % (r.name, r.delivered, out_len))
+        if input_first and r is not xsrc and r.delivered != out_len:
+          # "every coefficient stream is read exactly once per output
+          # sample": when only the input ran out there were out_len output
+          # samples, so out_len reads - not one more
+          raise _Mismatch("accounting:coefficient-read-without-output",
+                          "the input ended after %d items (all coefficient "
+                          "streams are longer) but reader %s delivered %d "
+                          "items for %d output samples"
+                          % (out_len, r.name, r.delivered, out_len))
     # a stream feeding several product terms
     if tree["op"] in ("mul", "add", "sub", "div", "pow", "copyadd", "copymul",
                       "dupscale", "addc") and sids:
@@ -654,7 +726,11 @@ class C06(Property):
       xc = SimSource(0, wl["xlen"], x_value, name="input")
       try:
         fC = self.build(tree, srcC, wl.get("cstream", 0), True)
-        got = list(fC(xc, zero=Fraction(0)).take(ncheck))
+        if memory is not None:
+          got = list(fC(xc, memory=list(memory),
+                        zero=Fraction(0)).take(ncheck))
+        else:
+          got = list(fC(xc, zero=Fraction(0)).take(ncheck))
       except Exception as exc:
         raise _Mismatch("constant-stream-raised", "with constants replaced "
                         "by constant streams the filter raised %r" % (exc,))
